@@ -131,7 +131,7 @@ def decide(prop, tier, seed, mod, obs, results, wall, args, declared):
   errors = []
   known_hit = []
   per = []
-  n_req = n_dis = n_att = n_att_ok = n_canary = 0
+  n_req = n_dis = n_att = n_att_ok = n_canary = n_bnd = n_bnd_ok = 0
   bounded_eval = bounded_distinct = 0
   samples = []
   assumptions = set(getattr(mod, 'ASSUMPTIONS', []))
@@ -155,13 +155,17 @@ def decide(prop, tier, seed, mod, obs, results, wall, args, declared):
     if o.kind == 'bounded':
       bounded_eval += int(r['stats'].get('evaluations', 0))
       bounded_distinct += int(r['stats'].get('distinct_nontrivial', 0))
-    if o.kind in ('required', 'bounded'):
+    if o.kind == 'required':
       n_req += 1
+    elif o.kind == 'bounded':
+      n_bnd += 1
     else:
       n_att += 1
     if v == oblig.PROVED:
-      if o.kind in ('required', 'bounded'):
+      if o.kind == 'required':
         n_dis += 1
+      elif o.kind == 'bounded':
+        n_bnd_ok += 1          # a bounded stand-in that held: NEVER counted as a discharged proof obligation
       else:
         n_att_ok += 1
       if len(samples) < 4:
@@ -224,6 +228,8 @@ def decide(prop, tier, seed, mod, obs, results, wall, args, declared):
       'samples': samples or [{'note': 'no proved obligation in this run'}],
       'explanation': getattr(mod, 'EXPLANATION', ''),
       'attempted': n_att, 'attempted_proved': n_att_ok, 'canaries_refuted': n_canary,
+      'bounded_standins': n_bnd, 'bounded_standins_held': n_bnd_ok,
+      'note_on_counts': 'obligations/discharged count PROVED (deductively discharged) required obligations only; bounded stand-ins are counted separately and never as proved',
       'functions_under_contract': sorted(functions),
       'solver_s': round(solver_s, 3),
       'back_ends': sorted({o.backend for o in obs}),
@@ -247,8 +253,8 @@ def decide(prop, tier, seed, mod, obs, results, wall, args, declared):
     json.dump(ev, open(os.path.join(ROOT, 'evidence', '%s.json' % prop), 'w'), indent=1)
   for l in lines:
     print(l)
-  print('%s tier=%s: %d required obligations, %d discharged; attempted %d/%d; canaries %d; known findings %d; '
-        'violations %d; undecided %d; errors %d; %.1fs' % (prop, tier, n_req, n_dis, n_att_ok, n_att, n_canary,
+  print('%s tier=%s: %d required obligations, %d discharged; bounded stand-ins %d/%d held; attempted %d/%d; canaries %d; known findings %d; '
+        'violations %d; undecided %d; errors %d; %.1fs' % (prop, tier, n_req, n_dis, n_bnd_ok, n_bnd, n_att_ok, n_att, n_canary,
                                                            len(known_hit), violations, len(undecided), len(errors), wall))
   for u in undecided:
     print('UNDECIDED %s' % u)
